@@ -4,8 +4,9 @@ import AbraModel.Drv.Util
    `id:<name>` `i:<digits>` `f:<spelling>` `s:<hex>` `true` `false` `nil`, the operator names
    `and or eq ne fmt lt le gt ge add sub mul div mod pow`, `not`, `( ) [ ] . ! ? ,`, `nl`, `other`.
    Answer: `ok <sexpr>` | `partial <tokens consumed> <sexpr>` | `err`.
-   `prattfix <tok>*` runs the variant in which `-` before a numeric literal is an ordinary prefix minus,
-   `prattfold <tok>*` the variant in which `parse_expr_term` folds it into the literal. -/
+   `pratt` is the code today (FoldMode.loose); `prattfix <tok>*` runs the variant in which `-` before a
+   numeric literal is always an ordinary prefix minus, `prattfold <tok>*` the variant in which
+   `parse_expr_term` always folds it into the literal (the code before the fix of D11). -/
 namespace Abra.Drv
 open Abra.Pratt
 
@@ -46,12 +47,12 @@ def handlePratt (ws : List String) : String :=
 
 def handlePrattFold (ws : List String) : String :=
   match prattToks? ws with
-  | some toks => prattRenderRes toks (parseExprWith true toks)
+  | some toks => prattRenderRes toks (parseExprWith .always toks)
   | none => "bad-op"
 
 def handlePrattFix (ws : List String) : String :=
   match prattToks? ws with
-  | some toks => prattRenderRes toks (parseExprWith false toks)
+  | some toks => prattRenderRes toks (parseExprWith .never toks)
   | none => "bad-op"
 
 end Abra.Drv
